@@ -41,7 +41,7 @@ PROPS = {
     "C14": dict(streams=[orc("cancel", "mixed", 100, 1500), orc("cancel", "binary", 40, 600)], rule=RULE + "; cancellation of the context, Cancel() from another goroutine and a blocking storage at storage events", trusted_base=COMMON_TB),
     "C15": dict(streams=[orc("faults", "mixed", 200, 3000)], rule=RULE + "; an error injected at error-capable storage events (Querier, Select, SeriesSet.Next/Err, Iterator Seek/Next/Err)", trusted_base=COMMON_TB),
     "C16": dict(streams=[orc("hints", "mixed", 500, 8000), orc("hints", "twins", 400, 6000), orc("hints", "hist", 300, 4000), orc("hints", "func", 300, 4000)], rule=RULE, trusted_base=COMMON_TB),
-    "C17": dict(streams=[orc("lifecycle", "mixed", 300, 5000), orc("lifecycle", "incl", 150, 2500), orc("lifecycle", "binary", 200, 4000), orc("lifecycle", "rangefn", 150, 2000), orc("lifecycle", "func", 200, 3000), orc("lifecycle", "hist", 150, 2000), orc("faults", "mixed", 100, 1500), orc("cancel", "mixed", 40, 600), orc("panic", "mixed", 25, 300)], rule=RULE, trusted_base=COMMON_TB),
+    "C17": dict(streams=[orc("lifecycle", "mixed", 300, 5000), orc("kernel", "kslice", 500, 8000), orc("lifecycle", "incl", 150, 2500), orc("lifecycle", "binary", 200, 4000), orc("lifecycle", "rangefn", 150, 2000), orc("lifecycle", "func", 200, 3000), orc("lifecycle", "hist", 150, 2000), orc("faults", "mixed", 100, 1500), orc("cancel", "mixed", 40, 600), orc("panic", "mixed", 25, 300)], rule=RULE, trusted_base=COMMON_TB),
     "C18": dict(streams=[diff("mixed", 1500, 30000), diff("extreme", 300, 5000), diff("func", 800, 10000), orc("procs", "mixed", 60, 600), orc("lifecycle", "hist", 150, 2000), diff("hist", 300, 4000), orc("kernel", "kco", 300, 4000), diff("late", 200, 3000), orc("dist", "dist", 200, 3000, fields=["other", "crash", "eng_vs_model", "contract"])], rule=RULE + "; the verif-tag wrapper checks the contract at every Series/Next of every operator", trusted_base=COMMON_TB),
     "C19": dict(streams=[diff("mixed", 1500, 30000), diff("extreme", 600, 10000), diff("binary", 600, 10000), diff("func", 1500, 20000), diff("hist", 400, 6000)], rule=RULE, trusted_base=COMMON_TB),
     "C20": dict(streams=[orc("sequence", "sequence", 250, 3000), orc("lifecycle", "hist", 150, 2000)], rule=RULE + "; sequences of 2-6 queries run twice on one engine interleaved with appends, every kept result re-checked after every later operation", trusted_base=COMMON_TB),
